@@ -62,7 +62,12 @@ NumTexts == {ToString(n) : n \in 0..(P.maxn + 1)}
 (***************************************************************************)
 SendShapes(x) == {<<"-s", x, "@V1">>, <<"-s" \o x, "@V1">>, <<"-n", x, "@V1">>, <<"-n" \o x, "@V1">>,
                   <<"-" \o x, "@V1">>, <<"-s", x, "--", "@V1">>}
+\* thorough only: several targets, groups, a target that does not exist
+MoreShapes(x) == {<<"-s", x, "@V2", "@V3">>, <<"-" \o x, "--", "@-G1">>, <<"-n", x, "--", "@-G2", "@V3">>, <<"-s", x, "@V1", "@NONE">>,
+                  <<"-" \o x, "@NONE">>, <<"-s" \o x, "--", "@-G1", "@-G2">>}
 FamSpec == {C("send", po, w) : po \in BOOLEAN, w \in UNION {SendShapes(x) : x \in Texts \cup Bad \cup NumTexts}}
+           \cup (IF Level = "full" THEN {C("send", po, w) : po \in BOOLEAN, w \in UNION {MoreShapes(x) : x \in Texts \cup Bad \cup NumTexts}}
+                 ELSE {})
 
 TargetShapes == {
   <<>>, <<"--">>, <<"-s">>, <<"-n">>, <<"-s", "TERM">>, <<"-s", "TERM", "--">>, <<"-TERM">>, <<"-15">>,
@@ -91,6 +96,10 @@ ListShapes ==
   \cup {<<"-l", "--", x>> : x \in {"9", "TERM", "-15", "FOO", "399", "--"}}
   \cup {<<"-l", a, b>> : a \in {"9", "TERM", "0", "FOO", "399", "INT", "int"}, b \in {"9", "TERM", "0", "FOO", "399", "INT", "int"}}
   \cup {<<"-l", "9", "15", "2">>, <<"-v", "9", "TERM">>, <<"-lv", "HUP", "130">>, <<"-l", "USR1", "-v">>}
+  \cup (IF Level = "full"
+        THEN {<<"-v", x>> : x \in StatusTexts \cup Texts \cup Bad} \cup {<<"-lv", "--", x>> : x \in Exact \cup SomeStatus}
+             \cup {<<"-l", a, b>> : a \in Exact, b \in {"9", "TERM", "FOO", "399", "int", "RTMAX"}}
+        ELSE {})
 FamList == {C("list", po, w) : po \in BOOLEAN, w \in ListShapes}
 
 SelfNums == (NamedNumbers(P) \cup RtPick) \ {KillNum(P), StopNum(P)}
@@ -121,6 +130,11 @@ FamTrap ==
   \cup {C("trap", FALSE, w) : w \in {<<"-", "INT", "FOO">>, <<"-p", "INT", "TERM", "EXIT">>, <<"", "INT", "KILL">>, <<"-p", "EXIT", "0">>,
                                      <<"-", "USR1", "usr2">>, <<"", "USR1", "USR2", "15">>, <<"-p", "KILL", "STOP">>, <<"-p", "FOO", "INT">>,
                                      <<"-", "2", "QUIT">>}}
+  \cup (IF Level = "full"
+        THEN {C("trap", FALSE, <<f, x, y>>) : f \in {"-p", "-", "", "true"}, x \in Exact \cup {"EXIT", "0", "FOO", "int"},
+                                              y \in {"QUIT", "3", "EXIT", "FOO", "RTMIN", "quit", ToString(P.rtmax)}}
+             \cup {C("trap", FALSE, <<f, x>>) : f \in {"false", "exit"}, x \in TrapConds}
+        ELSE {})
   \cup {C("trapall", FALSE, <<"-p">>)}
 
 ApiTexts == Texts \cup Bad \cup RangeOf(KnownNames) \cup {"RTMIN", "RTMAX", "RTMIN+1", "RTMAX-1", "RTMIN+1000", "RTMAX-1000", "RTMIN+0", "RTMAX-0"}
